@@ -658,6 +658,12 @@ class Sim:
             except Fork:
                 kind = "b" if (is_bool_ty(ty_a) or (isinstance(a, Const) and isinstance(a.val, bool))) else ("f" if fl else "i")
                 return Term("Cmp:%s:%s" % (op, kind), (a, b), prim("bool"))
+        if op in self.CMP_SETS and (isinstance(a, LenConst) or isinstance(b, LenConst)):
+            ln, other = (a, b) if isinstance(a, LenConst) else (b, a)
+            if isinstance(other, Const) and isinstance(other.val, int) and not isinstance(other, LenConst) and other.val > max(ln.val, 2) + 1:
+                # a length threshold the unrolled list cannot reach (e.g. `len() > 32` with 3 queued samples): whatever lies behind it is
+                # outside what this bounded exploration can show
+                st.notes.add("length-threshold:%d" % other.val)
         if op in self.CMP_SETS:
             if is_bool_ty(ty_a) or (isinstance(a, Const) and isinstance(a.val, bool)):
                 x, y = self.decide_bool(st, a), self.decide_bool(st, b)
